@@ -44,7 +44,9 @@ def gen_mapping(tp, atoms):
     atoms = list(atoms)
     if not atoms:
         return []
-    kind = tp.weighted([3, 3, 3, 1])
+    kind = tp.weighted([6, 6, 6, 2, 1])
+    if kind == 4:                       # nothing to rename at all
+        return []
     if kind == 0:                       # total, fresh / permuting
         return [[a, b] for a, b in S.renaming(tp, atoms).items()]
     k = 1 + tp.below(len(atoms))
